@@ -434,3 +434,13 @@ def end_is_final(O):
     from . import C01
     from . import dri
     C01.end_only_when_exhausted(O, dri.Rep(dict(FACTS), B.protocol_battery(), B.protocol_judge))
+
+
+@obligation("C02/input-capable-signals-are-driven", profiles=("dev",),
+            desc="build_indices (2 signals x 2 columns, symbolic names): a bidirectional signal gets an input index whatever the "
+                 "header names - its own column, only its `<name>_out` column, or neither (then its default) - so the "
+                 "constructor's call and every row carry every input-capable signal")
+def input_capable_driven(O):
+    from . import C06, dri
+    R = dri.Rep(dict(FACTS), B.protocol_battery(), B.protocol_judge)
+    C06.build_indices(dri.WithRep(O, R), "Bidirectional", R)
